@@ -24,7 +24,7 @@ ASSUMPTIONS = ["when several error classes apply to the reachable part, any one 
                "whole-project validation is exercised through TaskIndex.load_all_tasks_in_cond_file + "
                "validate_all_loaded_tasks (the explorer route itself cannot be imported in this checkout)"]
 ESSENTIAL = ["accepted", "cycle", "not_found", "missing_file", "dup", "error_unreachable_ignored", "self_loop",
-             "two_paths", "multi_file", "cli_sample", "whole_project_roots", "generated_5to7"]
+             "two_paths", "multi_file", "cli_sample", "whole_project_roots", "generated_5to7", "same_relative_string_in_two_files"]
 EXHAUSTIVE = {"quick": "all digraphs n<=3 x all dep-list permutations x every T x variants",
               "thorough": "all digraphs n<=3 x all dep-list permutations x every T x variants, and all digraphs n=4 (T=0, 3 listing orders) x variants"}
 TECHNIQUE = "exhaustive small-scope enumeration of dependency graphs x listing orders against a reachability model; Hypothesis for larger graphs"
@@ -36,8 +36,17 @@ PKGS = ["", "p", "p/q"]
 _LAST_BAD = [None]
 
 
-def _names(n):
-    return ["t%d" % i for i in range(n)]
+def _names(n, files=None, shared=False):
+    """Task names: project-wide unique (t0, t1, ...) or, with `shared`, numbered per COND file, so that the same name -
+    and the same relative dependency string ':s0' - occurs in several files and means a different task in each."""
+    if not shared or files is None:
+        return ["t%d" % i for i in range(n)]
+    seen = {}
+    out = []
+    for i in range(n):
+        out.append("s%d" % seen.get(files[i], 0))
+        seen[files[i]] = seen.get(files[i], 0) + 1
+    return out
 
 
 def layout(gid, n):
@@ -52,8 +61,8 @@ def layout(gid, n):
 
 def write_case(root, case):
     n = case["n"]
-    names = _names(n)
     files = case["files"]
+    names = _names(n, files, case.get("shared_names"))
     variant = case.get("variant")
     undefined = set()
     missing_pkgs = set()
@@ -92,7 +101,7 @@ def write_case(root, case):
 
 
 def tid(case, i):
-    return "//%s:t%d" % (PKGS[case["files"][i]], i)
+    return "//%s:%s" % (PKGS[case["files"][i]], _names(case["n"], case["files"], case.get("shared_names"))[i])
 
 
 def expectation(case):
@@ -193,6 +202,8 @@ def eval_single(case, cli=False):
             labels.append("two_paths")
         if len(set(case["files"])) > 1:
             labels.append("multi_file")
+            if case.get("shared_names"):
+                labels.append("same_relative_string_in_two_files")
         # whole-project validation
         variant = case.get("variant")
         if case.get("whole", True):
@@ -312,7 +323,7 @@ def run_batch(case):
                 for variant in variants_for(gid, n, adj):
                     counter += 1
                     sub = {"n": n, "adj": adj, "T": T, "files": files, "spell": spell, "variant": variant,
-                           "file_order_rev": bool(gid & 1)}
+                           "file_order_rev": bool(gid & 1), "shared_names": counter % 3 == 0 and len(set(files)) > 1}
                     vv, lb, ntv = eval_single(sub, cli=(counter % 40 == 0))
                     evals += 1
                     nt += 1 if ntv else 0
@@ -369,7 +380,8 @@ def _gen(draw, tier):
                                     ["dup", draw(st.sampled_from(range(n))), draw(st.sampled_from(range(7))), draw(st.sampled_from([0, 1]))]]))
     return {"n": n, "adj": adj, "T": draw(st.sampled_from(range(n))), "files": files,
             "spell": draw(st.sampled_from(range(1 << 16))), "variant": variant,
-            "file_order_rev": draw(st.booleans()), "cli": draw(st.sampled_from([False] * 9 + [True]))}
+            "file_order_rev": draw(st.booleans()), "cli": draw(st.sampled_from([False] * 9 + [True])),
+            "shared_names": draw(st.sampled_from([False, True]))}
 
 
 def strategy(tier):
